@@ -397,12 +397,14 @@ impl io::Write for SimConsole {
     }
 }
 
+#[cfg(feature = "legacy-console")]
 impl wincon_port::stream::IsTerminal for SimConsole {
     fn is_terminal(&self) -> bool {
         true
     }
 }
 
+#[cfg(feature = "legacy-console")]
 impl wincon_port::stream::AsLockedWrite for SimConsole {
     type Write<'w> = &'w mut Self;
     fn as_locked_write(&mut self) -> Self::Write<'_> {
